@@ -202,6 +202,9 @@ def _fft_family(rng, hi):
 def generate(rng, tier):
     hi = 12 if tier == "quick" else rng.choice([8, 12, 16, 24, 32])
     cfg = {
+        # in a few runs the library modules are imported (again) under a precision chosen here, before the
+        # run's own configuration is applied: "configure first, import later" is a legal order
+        "reimport_under": rng.choice([32, 32, 64]) if core.rare(rng, 0.02, phase=5) else None,
         "fft_fallback": rng.random() < 0.15,
         "precision0": 64 if rng.random() < 0.8 else 32,
         # alias: the caller keeps using the same array / Wavefront / shift objects across calls
@@ -299,9 +302,15 @@ def generate(rng, tier):
                 op["shift"] = None                 # default argument
             if rng.random() < 0.12:
                 # the same numbers in another legal container / numpy scalar type
-                op["forms"] = {"Q": rng.choice(["plain", "np64", "np64", "list", "nparr"]),
+                op["forms"] = {"Q": rng.choice(["plain", "np64", "np64", "list", "nparr", "np32", "np32"]),
                                "out": rng.choice(["plain", "npint", "npint", "list"]),
                                "shift": rng.choice(["plain", "npscalars", "list", "nparr"])}
+            if op.get("forms", {}).get("Q") == "np32":
+                # Q handed over as numpy float32 scalar(s): the call is judged for the VALUE passed, so the
+                # plan's Q is rounded to what a float32 holds
+                import struct
+                r32 = lambda q: struct.unpack("f", struct.pack("f", float(q)))[0]
+                op["Q"] = [r32(q) for q in op["Q"]] if isinstance(op["Q"], list) else r32(op["Q"])
             if rng.random() < 0.12:
                 # the same samples behind another memory layout
                 op["view"] = rng.choice(["fortran", "negstride", "readonly", "strided"])
@@ -348,7 +357,8 @@ def generate(rng, tier):
             if rng.random() < 0.3:
                 # a padding factor for which shape*Q is not an integer: the routine pads to ceil(shape*Q), and the
                 # textbook sum on THAT grid (Q_eff = padded/shape per axis, unitary) is what must come back
-                fq = rng.choice([1.1, 1.25, 1.3, 1.5, 1.7, 2.2, 2.5, round(rng.uniform(1, 3), 3)])
+                fq = rng.choice([1.1, 1.25, 1.3, 1.5, 1.7, 2.2, 2.5, round(rng.uniform(1, 3), 3),
+                                 math.nextafter(1.0, 2.0), 1.0 + 1e-10])     # ... including a Q a few ulp above 1
             name = arr_for([m, n])
             op = {"op": kind, "arr": name, "Q": fq, "wf": rng.random() < 0.4,
                   "efl": rng.uniform(10, 500), "wvl": arrays[name]["wvl"],
@@ -369,6 +379,16 @@ def generate(rng, tier):
                              "ufs_backprop", "wf_ffs_backprop", "q_scan", "pad_outshape"])
             op = {"op": "pollute", "kind": pk, "g": g, "seed": rng.getrandbits(32),
                   "zoom": rng.choice([0.5, 1.5, 2, 2.0, [1.5, 0.75]])}
+            if pk == "resample" and isinstance(op["zoom"], (int, float)) and max(g["in"]) <= 64 and rng.random() < 0.7:
+                zz = op["zoom"]
+                gm, gn = g["in"]
+                if int(gm * zz) >= 1 and int(gn * zz) >= 1:
+                    ops.append(op)
+                    rg = {"in": [gm, gn], "Q": zz, "out": [int(gm * zz), int(gn * zz)], "shift": [0, 0]}
+                    pool.append(rg)
+                    op = {"op": rng.choice(["idft2", "idft2", "dft2"]), "arr": arr_for(rg["in"]), "Q": rg["Q"],
+                          "out": rg["out"], "shift": rng.choice([[0, 0], None])}
+                    kind = op["op"]
             if pk == "q_scan":
                 # somebody scans Q (a wavelength or defocus loop) on the same shapes: many more cached
                 # geometries than any small bound, all of one shape
@@ -521,6 +541,12 @@ def execute(plan):
     def bump(d, k, n=1):
         d[k] = d.get(k, 0) + n
 
+    if cfg.get("reimport_under"):
+        import importlib
+        config.precision = cfg["reimport_under"]
+        ft = importlib.reload(ft)
+        pr = importlib.reload(pr)
+        bump(faults, "modules_imported_under_other_precision")
     if cfg.get("fft_fallback"):
         mathops.fft._srcmodule = _FFTNoFastLen(mathops.fft._srcmodule)
         bump(faults, "backend_fallback")
@@ -1110,6 +1136,9 @@ def _apply_forms(np, forms, qa, oa, kw):
     f = forms.get("Q")
     if f == "np64":
         qa = tuple(np.float64(q) for q in qa) if isinstance(qa, tuple) else np.float64(qa)
+    elif f == "np32":
+        qa = tuple(np.float32(q) for q in qa) if isinstance(qa, tuple) else np.float32(qa)
+        lenient = True        # a float32 scalar may be rejected cleanly; if accepted the answer must be right
     elif f in ("list", "nparr"):
         q2 = list(qa) if isinstance(qa, tuple) else [qa, qa]
         qa = q2 if f == "list" else np.array(q2, dtype=np.float64)
